@@ -3,7 +3,7 @@
 # Isolated copy of harness + repo under /tmp/sweep (outside /repo and /verif) for running all checks against a patch
 # without touching /repo. Results: one JSON line per run appended to /tmp/sweep/results.jsonl
 set -u
-S=/tmp/sweep
+S=${SWEEP_DIR:-/tmp/sweep}
 export CARGO_NET_OFFLINE=true CARGO_TARGET_DIR=$S/target
 ALL="C01 C02 C03 C04 C05 C06 C07 C08 C09 C10 C11 C12 C13 C14 C15 C16 C17 C18 C19 C20"
 setup() {
